@@ -279,12 +279,24 @@ impl<Front: SocketHandler> ExpectProxyProtocol<Front> {
 
     pub fn into_pipe(
         self,
-        front_buf: Checkout,
+        mut front_buf: Checkout,
         back_buf: Checkout,
         backend_socket: Option<TcpStream>,
         backend_token: Option<Token>,
         listener: Rc<RefCell<TcpListener>>,
     ) -> Pipe<Front, TcpListener> {
+        // The header is read through fixed staging sizes (28, 52, 232 bytes),
+        // so a header shorter than the current stage (LOCAL / AF_UNSPEC, or an
+        // address block followed by TLVs) can pull in the first bytes of the
+        // client's payload. They are part of the byte stream to relay: hand
+        // them to the pipe instead of dropping them with the staging buffer.
+        if let Ok((rest, _)) = parse_v2_header(&self.frontend_buffer[..self.index]) {
+            let space = front_buf.space();
+            let len = rest.len().min(space.len());
+            space[..len].copy_from_slice(&rest[..len]);
+            front_buf.fill(len);
+        }
+
         // Prefer the source address parsed from the PROXY-v2 header over
         // the TCP `peer_addr` so the pipe phase records the real client
         // — `peer_addr` here is the upstream PROXY-emitter (an LB / edge
